@@ -24,7 +24,11 @@
 //   leak_at_end           memory still held after both resources were destroyed
 //
 // usage: c06                 line protocol on stdin
-//        c06 threads <kind> <nthreads> <seed> <rounds>   concurrent run on Shared / Swiss (oracle only)
+//        c06 threads <kind> <nthreads> <seed> <rounds>   concurrent run on Shared / Swiss (oracle only):
+//                            every thread also registers destructors that check blocks allocated by
+//                            OTHER threads; oracle dtor_after_page_free = a destructor ran after any
+//                            page / upstream block had been returned (pages are scribbled on return)
+//        c06 pageheap <seed> <pageSize> <cacheCapacity> <cycles>   several resources on one real PageHeap
 #include <babylon/reusable/memory_resource.h>
 
 #include <sys/mman.h>
@@ -541,6 +545,9 @@ static int line_protocol() {
 // ---------------------------------------------------------------------------------------------
 // thorough tier, supporting evidence only (no model): N real threads allocate concurrently from one
 // SharedMonotonicBufferResource / SwissMemoryResource; same oracle on the union of all blocks.
+// memory returned to any allocator since the current release() of the shared resource began
+static std::atomic<long> g_release_frees {0};
+
 struct LockedPA : public PageAllocator {
   std::mutex mu;
   size_t ps = 4096;
@@ -562,11 +569,13 @@ struct LockedPA : public PageAllocator {
   virtual void deallocate(void** pages, size_t num) noexcept override {
     for (size_t i = 0; i < num; ++i) {
       char* p = reinterpret_cast<char*>(pages[i]);
+      g_release_frees.fetch_add(1);
       {
         std::lock_guard<std::mutex> g(mu);
         if (!live.erase(p)) { errors.push_back("bad_page_free"); continue; }
         ++frees;
       }
+      std::memset(p, 0xDD, ps);  // a recycling allocator scribbles over returned pages
       ::operator delete(p, ps, std::align_val_t(ps));
     }
   }
@@ -585,6 +594,7 @@ struct LockedUp : public std::pmr::memory_resource {
   }
   void do_deallocate(void* vp, size_t bytes, size_t align) override {
     char* p = reinterpret_cast<char*>(vp);
+    g_release_frees.fetch_add(1);
     {
       std::lock_guard<std::mutex> g(mu);
       auto it = live.find(p);
@@ -599,13 +609,22 @@ struct LockedUp : public std::pmr::memory_resource {
 
 static std::atomic<long> g_tdtor_runs {0};
 static std::atomic<long> g_tdtor_bad {0};
+static std::atomic<long> g_tdtor_after_free {0};  // destructor ran after some memory had already been returned
+static std::atomic<long> g_tdtor_peer_bad {0};    // a block allocated by ANOTHER thread lost its contents before the destructor ran
 struct TObj {
   uint64_t magic;
   std::atomic<int> runs;
+  Blk peer;  // a block allocated through another thread's sub-resource (bytes == 0: none)
 };
 static void tdtor(void* p) {
   auto* o = reinterpret_cast<TObj*>(p);
+  if (g_release_frees.load() != 0) {
+    g_tdtor_after_free.fetch_add(1);  // do not touch resource memory any more: it may be gone
+    g_tdtor_runs.fetch_add(1);
+    return;
+  }
   if (o->magic != 0xC06C06C06ull || o->runs.fetch_add(1) != 0) g_tdtor_bad.fetch_add(1);
+  if (o->peer.bytes != 0 && !canary_ok(o->peer)) g_tdtor_peer_bad.fetch_add(1);
   g_tdtor_runs.fetch_add(1);
 }
 
@@ -626,8 +645,10 @@ static int run_threads(const char* kind, int nthreads, unsigned seed, int rounds
     for (int round = 0; round < rounds; ++round) {
       std::vector<std::vector<Blk>> blocks(nthreads);
       std::vector<long> registered(nthreads, 0);
+      std::vector<std::vector<Blk>> watchers(nthreads);
       std::vector<std::thread> ts;
       std::atomic<int> go {0};
+      std::atomic<int> phase_a_done {0};
       for (int t = 0; t < nthreads; ++t) {
         ts.emplace_back([&, t] {
           std::mt19937 rng(seed * 1000 + round * 16 + t);
@@ -650,10 +671,28 @@ static int run_threads(const char* kind, int nthreads, unsigned seed, int rounds
               auto* o = reinterpret_cast<TObj*>(res.allocate(sizeof(TObj), alignof(TObj)));
               o->magic = 0xC06C06C06ull;
               o->runs.store(0);
+              o->peer = Blk {nullptr, 0, 1, 0};
               res.register_destructor(o, tdtor);
               blocks[t].push_back({reinterpret_cast<char*>(o), sizeof(TObj), alignof(TObj), 0, true});
               ++registered[t];
             }
+          }
+          // every thread has finished allocating: register (through THIS thread's sub-resource)
+          // destructors that look at blocks allocated through ANOTHER thread's sub-resource
+          phase_a_done.fetch_add(1);
+          while (phase_a_done.load() < nthreads) {}
+          auto& theirs = blocks[(t + 1) % nthreads];
+          size_t avail = theirs.size();  // frozen: nobody appends to another thread's list any more
+          for (int k = 0; k < 8 && avail != 0 && nthreads > 1; ++k) {
+            const Blk& pb = theirs[rng() % avail];
+            if (pb.bytes == 0 || pb.opaque) continue;
+            auto* o = reinterpret_cast<TObj*>(res.allocate(sizeof(TObj), alignof(TObj)));
+            o->magic = 0xC06C06C06ull;
+            o->runs.store(0);
+            o->peer = pb;
+            res.register_destructor(o, tdtor);
+            watchers[t].push_back({reinterpret_cast<char*>(o), sizeof(TObj), alignof(TObj), 0, true});
+            ++registered[t];
           }
         });
       }
@@ -664,6 +703,7 @@ static int run_threads(const char* kind, int nthreads, unsigned seed, int rounds
       long reg = 0;
       for (int t = 0; t < nthreads; ++t) {
         all.insert(all.end(), blocks[t].begin(), blocks[t].end());
+        all.insert(all.end(), watchers[t].begin(), watchers[t].end());
         reg += registered[t];
       }
       total_blocks += static_cast<long>(all.size());
@@ -692,7 +732,14 @@ static int run_threads(const char* kind, int nthreads, unsigned seed, int rounds
         }
       }
       long before = g_tdtor_runs.load();
+      g_release_frees.store(0);
+      g_tdtor_after_free.store(0);
+      g_tdtor_peer_bad.store(0);
       res.release();
+      if (g_tdtor_after_free.load() != 0)
+        fail("dtor_after_page_free " + std::to_string(g_tdtor_after_free.load()) + " destructors ran after memory had been returned");
+      if (g_tdtor_peer_bad.load() != 0)
+        fail("canary at destructor time: " + std::to_string(g_tdtor_peer_bad.load()) + " blocks of other threads lost their contents before all destructors ran");
       if (g_tdtor_runs.load() - before != reg) fail("dtor_order: " + std::to_string(g_tdtor_runs.load() - before) + " runs for " + std::to_string(reg) + " registrations");
       if (g_tdtor_bad.load() != 0) fail("dtor ran twice or on dead memory");
       if (!pa.live.empty()) fail("leak_page");
@@ -707,7 +754,115 @@ static int run_threads(const char* kind, int nthreads, unsigned seed, int rounds
   return failures ? 1 : 0;
 }
 
+// ---------------------------------------------------------------------------------------------
+// The resource on the library's own allocator stack: several resources share one real
+// PageHeap (NewDeletePageAllocator + CachedPageAllocator with a small ring) through many
+// allocate / release cycles, so that release() batches hit the cache at every ring position.
+// Oracle: alignment, pairwise disjointness of ALL live blocks of all resources, canaries before
+// every release, and "no page is in the cache twice / in the cache while a live block uses it".
+static int run_pageheap(unsigned seed, size_t ps, size_t cap, int cycles) {
+  int failures = 0;
+  auto fail = [&](const std::string& s) {
+    if (failures < 20) std::printf("!ORACLE(%s)\n", s.c_str());
+    ++failures;
+  };
+  long nblocks = 0, nreleases = 0, ndrains = 0;
+  {
+    PageHeap heap {cap, ps};
+    ps = heap.page_size();
+    struct Owner {
+      std::unique_ptr<MonotonicBufferResource> res;
+      std::vector<Blk> blocks;
+    };
+    std::vector<Owner> owners(4);
+    for (int i = 0; i < 3; ++i) {
+      auto* r = new ExclusiveMonotonicBufferResource;
+      r->set_page_allocator(heap);
+      owners[i].res.reset(r);
+    }
+    {
+      auto* r = new SwissMemoryResource;
+      r->set_page_allocator(heap);
+      owners[3].res.reset(r);
+    }
+    std::mt19937 rng(seed);
+    auto verify = [&](Owner& o) {
+      for (auto& b : o.blocks)
+        if (!canary_ok(b)) fail("canary block lost its contents, bytes " + std::to_string(b.bytes));
+    };
+    auto drain_check = [&]() {
+      ++ndrains;
+      size_t n = heap.free_page_num();
+      if (n == 0) return;
+      std::vector<void*> pg(n);
+      heap.allocate(pg.data(), n);
+      std::vector<char*> sorted;
+      for (auto q : pg) sorted.push_back(reinterpret_cast<char*>(q));
+      std::sort(sorted.begin(), sorted.end());
+      for (size_t i = 1; i < sorted.size(); ++i)
+        if (sorted[i] == sorted[i - 1]) fail("page_twice the page allocator hands out one page twice");
+      for (auto& o : owners)
+        for (auto& b : o.blocks)
+          for (auto q : sorted)
+            if (Seg {b.p, b.bytes}.overlaps({q, ps})) fail("page_twice a free page of the allocator holds a live block");
+      heap.deallocate(pg.data(), n);
+    };
+    for (int c = 0; c < cycles; ++c) {
+      Owner& o = owners[rng() % owners.size()];
+      if (!o.blocks.empty() && rng() % 3 == 0) {
+        for (auto& x : owners) verify(x);
+        o.res->release();
+        o.blocks.clear();
+        ++nreleases;
+        if (rng() % 3 == 0) drain_check();
+        continue;
+      }
+      int k = 1 + static_cast<int>(rng() % 6);
+      for (int j = 0; j < k; ++j) {
+        size_t bytes;
+        switch (rng() % 4) {
+          case 0: { size_t off = rng() % 137; bytes = ps > off ? ps - off : 1; break; }
+          case 1: bytes = ps / 2 + 1; break;
+          case 2: bytes = ps; break;
+          default: bytes = 1 + rng() % 64;
+        }
+        size_t align = size_t(1) << (rng() % 7);
+        char* p = reinterpret_cast<char*>(o.res->allocate(bytes, align));
+        Blk b {p, bytes, align, static_cast<uint8_t>(rng())};
+        ++nblocks;
+        if (reinterpret_cast<uintptr_t>(p) % align != 0) fail("misaligned");
+        bool clash = false;
+        for (auto& x : owners)
+          for (auto& y : x.blocks)
+            if (Seg {p, bytes}.overlaps({y.p, y.bytes})) clash = true;
+        if (clash) {
+          fail("overlap_block a block overlaps a live block (of this or another resource on the same PageHeap)");
+          b.bytes = 0;  // do not scribble over somebody else's block
+        } else {
+          canary_fill(b);
+        }
+        o.blocks.push_back(b);
+      }
+    }
+    for (auto& x : owners) verify(x);
+    for (auto& x : owners) {
+      x.res->release();
+      x.blocks.clear();
+    }
+    drain_check();
+    if (heap.allocate_page_num() != 0) fail("leak_page PageHeap still counts pages as allocated after every resource was released");
+    owners.clear();
+  }
+  std::printf("pageheap seed=%u ps=%zu cap=%zu cycles=%d blocks=%ld releases=%ld drains=%ld failures=%d\n", seed, ps, cap, cycles,
+              nblocks, nreleases, ndrains, failures);
+  return failures ? 1 : 0;
+}
+
 int main(int argc, char** argv) {
+  if (argc >= 6 && std::string(argv[1]) == "pageheap") {
+    return run_pageheap(static_cast<unsigned>(std::atoi(argv[2])), static_cast<size_t>(std::atoll(argv[3])),
+                        static_cast<size_t>(std::atoll(argv[4])), std::atoi(argv[5]));
+  }
   if (argc >= 6 && std::string(argv[1]) == "threads") {
     std::string kind = argv[2];
     int n = std::atoi(argv[3]);
